@@ -19,7 +19,7 @@ inductive Wire
   | one
   | pub (i : Nat)
   | priv (i : Nat)
-deriving DecidableEq, Repr, BEq, Hashable
+deriving DecidableEq, Repr
 
 /-- Python's signed integer key of a wire (`snarkjsbackend.pubval/privval`). -/
 def Wire.key : Wire → Int
